@@ -190,6 +190,11 @@ bool StepScript(InterpreterEnv& env)
     auto& is_p2sh = env.is_p2sh;
     auto& serror = env.serror;
 
+    // each script is evaluated on its own: a conditional must not stay open across the end of
+    // the scriptSig (or scriptPubKey) into the script that follows
+    if (!vfExec.empty() && (is_p2sh || env.successor_script.size()))
+        return set_error(serror, SCRIPT_ERR_UNBALANCED_CONDITIONAL);
+
     if (is_p2sh) {
         if (stack.empty())
             return set_error(serror, SCRIPT_ERR_EVAL_FALSE);
